@@ -303,9 +303,13 @@ def enabled(m, cfg):
     if n + 1 <= cfg['maxa']:
         ev.append(('union', 'C'))
         ev.append(('iunion', 'C'))
+        if max(atoms, default=0) < 100:
+            ev.append(('union2', 'C'))
     if n + 2 <= cfg['maxa']:
         ev.append(('union', 'OO'))
         ev.append(('iunion', 'OO'))
+        if max(atoms, default=0) < 100:
+            ev.append(('union2', 'OO'))
     ev.append(('clean_stereo',))
     for a in atoms:
         if len(bonds[a]) >= 3 and m._atoms[a].stereo is None:
@@ -365,9 +369,13 @@ def _inner(m, e):
         raise RuntimeError('unknown inner event %r' % (e,))
 
 
-def frag(name):
+def frag(name, offset=0):
     from .. import mk
-    return mk.build(*FRAGS[name])
+    atoms, bonds = FRAGS[name]
+    if offset:   # numbers disjoint from every seed: union takes its no-renumbering path
+        atoms = [(a[0] + offset,) + tuple(a[1:]) for a in atoms]
+        bonds = [(x + offset, y + offset, o) for x, y, o in bonds]
+    return mk.build(atoms, bonds)
 
 
 def apply(m, e):
@@ -436,6 +444,8 @@ def apply(m, e):
         return m.substructure([x for x in m if x != e[1]]), 'new'
     if k == 'union':
         return m | frag(e[1]), 'new'
+    if k == 'union2':
+        return m | frag(e[1], 100), 'new'
     if k == 'iunion':
         m |= frag(e[1])
         return m, 'changed'
@@ -510,14 +520,14 @@ def judge_state(m, patvals):
     return None
 
 
-def transition(seedname, hist, e, pat, parent_kh):
+def transition(seedname, hist, e, pat, parent_kh, i4depth=None):
     """run one transition; returns (keyhash|None, reason|None, info)"""
     m = replay_history(seedname, hist)
     if parent_kh is not None and khash(state_key(m)) != parent_kh:
         raise RuntimeError('divergence while replaying prefix %r' % (hist,))
     pre_raw = raw(m)
     pre_full = None
-    if e[0] in ('tx_fail', 'bad', 'copy', 'substructure', 'union'):
+    if e[0] in ('tx_fail', 'bad', 'copy', 'substructure', 'union', 'union2'):
         pre_full = read(m, pattern_names('ALL'))  # caches are warm already (default pattern) or get warm: recorded in key below
     src = m
     try:
@@ -548,7 +558,7 @@ def transition(seedname, hist, e, pat, parent_kh):
             return None, 'I4 source changed by %s' % e[0], None
         if expect == 'same' and raw(m2) != pre_raw:
             return None, 'I4 copy differs from source', None
-        if len(hist) < I4DEPTH[0]:
+        if len(hist) < (I4DEPTH[0] if i4depth is None else i4depth):
             r = independence(seedname, hist, e, pre_raw, pre_full)
             if r:
                 return None, r, None
@@ -576,6 +586,43 @@ def independence(seedname, hist, e, pre_raw, pre_full):
         d = diff(read(src, pattern_names('ALL')), pre_full)
         if d:
             return 'I4 edit %s on %s result changed source %s' % (x[0], e[0], d)
+    if e[0] in ('union', 'union2'):
+        # I4c: the RIGHT operand is as independent of the result as the left one (both numbering paths of union)
+        off = 100 if e[0] == 'union2' else 0
+        f0 = frag(e[1], off)
+        touch(f0, pattern_names('ALL'))
+        fraw, ffull = raw(f0), read(f0, pattern_names('ALL'))
+        for x in [x for x in enabled(new, cfg) if x[0] in SIMPLE_FOR_I4]:
+            src = replay_history(seedname, hist)
+            f = frag(e[1], off)
+            touch(f, pattern_names('ALL'))
+            res = src | f
+            try:
+                apply(res, x)
+            except Exception as ex:
+                return 'I4 %s result rejects %s: %s' % (e[0], x[0], type(ex).__name__)
+            r = check_adjacency(f)
+            if r:
+                return 'I4 right operand of union: ' + r
+            if raw(f) != fraw:
+                return 'I4 edit %s on %s result changed the right operand raw state' % (x[0], e[0])
+            d = diff(read(f, pattern_names('ALL')), ffull)
+            if d:
+                return 'I4 edit %s on %s result changed the right operand %s' % (x[0], e[0], d)
+        for x in [x for x in enabled(f0, cfg) if x[0] in SIMPLE_FOR_I4]:
+            src = replay_history(seedname, hist)
+            f = frag(e[1], off)
+            res = src | f
+            nraw, nfull = raw(res), read(res, pattern_names('ALL'))
+            try:
+                apply(f, x)
+            except Exception as ex:
+                return 'event raised %s' % type(ex).__name__
+            if raw(res) != nraw or check_adjacency(res):
+                return 'I4 edit %s on the right operand changed %s result raw state' % (x[0], e[0])
+            d = diff(read(res, pattern_names('ALL')), nfull)
+            if d:
+                return 'I4 edit %s on the right operand changed %s result %s' % (x[0], e[0], d)
     evs = [x for x in enabled(m, cfg) if x[0] in SIMPLE_FOR_I4]
     for x in evs:
         src = replay_history(seedname, hist)
@@ -611,7 +658,7 @@ def expand(item):
             nd = ndev + (pat != 'ALL')
             acc.transitions += 1
             try:
-                kh, reason, natoms = transition(seedname, hist, e, pat, parent_kh)
+                kh, reason, natoms = transition(seedname, hist, e, pat, parent_kh, cfg.get('i4depth'))
             except RuntimeError:
                 raise
             if reason:
@@ -639,7 +686,7 @@ def _t(x):
 
 def bfs(pmap, seeds, depth, devbound, maxa, maxdec, label, patterns=None):
     acc = Acc()
-    cfg = {'maxa': maxa, 'maxdec': maxdec, 'devbound': devbound, 'patterns': patterns or PATTERNS}
+    cfg = {'maxa': maxa, 'maxdec': maxdec, 'devbound': devbound, 'patterns': patterns or PATTERNS, 'i4depth': I4DEPTH[0]}
     seen = {}
     frontier = []
     for s in seeds:
@@ -683,12 +730,14 @@ def stage_default(pmap, tier, seed):
 
 
 def stage_dev1(pmap, tier, seed):
+    I4DEPTH[0] = 1
     if tier == 'thorough':
         return bfs(pmap, SEEDS_THOROUGH, 3, 1, 4, 1, 'dev1', patterns=PATTERNS_QUICK)
     return bfs(pmap, SEEDS_QUICK, 2, 1, 4, 1, 'dev1', patterns=PATTERNS_QUICK)
 
 
 def stage_dev2(pmap, tier, seed):
+    I4DEPTH[0] = 1
     return bfs(pmap, ['CC', 'CCO', 'C1CC1', 'CC(N)O@', 'CN~Cu'], 3, 2, 4, 1, 'dev2', patterns=['ALL', 'NONE', 'ONE:str', 'ONE:sssr', 'ONE:atoms_order', 'ONE:connected_components'])
 
 
@@ -720,5 +769,5 @@ def replay(rec):
         m = replay_history(rec['seed'], ())
         r = judge_state(m, None)
         return [{'key': rec['key'], 'reason': r}] if r else []
-    kh, reason, _ = transition(rec['seed'], hist, _t(rec['event']), rec['pattern'], None)
+    kh, reason, _ = transition(rec['seed'], hist, _t(rec['event']), rec['pattern'], None, 2)
     return [{'key': rec['key'], 'reason': reason}] if reason else []
